@@ -50,7 +50,7 @@ def run(tier):
                       "the x86-64 assembly is not instrumented by TSan (the c64 build instruments the C permutation)"]
     b = bins(tier)
     ev.configs = [n for n, _ in b]
-    rcrun.run_rc(ev, b, [("c16_threads", 600 if tier == "quick" else 8000, 100)], finding_key, env_extra=ENV)
+    rcrun.run_rc(ev, b, [("c16_threads", 1600 if tier == "quick" else 16000, 100)], finding_key, env_extra=ENV)
     try:
         from vcommon import build_lib
         ev.extra["writable_data_symbols_in_release_archive"] = nm_writable(build_lib(Cfg("asm")))
